@@ -113,6 +113,7 @@ void Runner::exec_op(Thread *t, int idx) {
   void *hp = h ? h->p : nullptr;
   OpCtx &cx = octx[(size_t) t->tid];
   cx = OpCtx();
+  cx.t0_ns = K->now_ns;
   int st0 = h ? h->st : LS_NONE;
   int expect_uid = h && h->st == LS_RUNNING ? h->uid : -1;
   res.t0_ns = K->now_ns;
@@ -445,6 +446,21 @@ void Runner::exec_op(Thread *t, int idx) {
       else if (strlen(s) == 0) c14("strerror-empty", "reproc_strerror returned an empty string");
       return;
     }
+    case OP_USERFD: {
+      // harness actions on the caller process between API calls: a = 1 raise the soft descriptor limit to b;
+      // a = 2 open a user descriptor (null device) with number b, close-on-exec = c
+      if (op.a == 1) { if ((uint64_t) op.b > K->caller->rlim_max) K->caller->rlim_max = (uint64_t) op.b; K->caller->rlim_cur = (uint64_t) op.b; }
+      if (op.a == 2 && op.b >= 3 && (uint64_t) op.b < K->caller->rlim_cur && !K->fdent(K->caller, (int) op.b)) {
+        OFD *o = K->ofd_new(OFD::NUL);
+        o->acc = O_RDWR;
+        K->fd_install(K->caller, (int) op.b, o, op.c != 0, OWN_USER);
+        user_fds.insert((int) op.b);
+        user_ofd[(int) op.b] = o->id;
+        if ((uint64_t) op.b == K->caller->rlim_cur - 1 && !op.c) probe(P_limit_minus_1_open);
+      }
+      finish();
+      return;
+    }
     case OP_SLEEP: {
       t->op = idx;
       K->park(t, never_ready, K->now_ns + op.a * 1000000, K_sleep);
@@ -574,6 +590,9 @@ void Runner::check_stop_model(Thread *t, int idx, const int stop_in[6], OpRes &r
         viol(prop, "stop-wrong-signal", fmt("actions=%s/step=%d", triple.c_str(), i + 1), fmt("step %d sent signal %d, expected %d", i + 1, sent[si].sig, sig), idx);
         return;
       }
+      if (sent[si].t_ns > hi + 2000000 && !faulted)
+        viol(prop, "stop-step-late", fmt("actions=%s/step=%d", triple.c_str(), i + 1),
+             fmt("step %d sent its signal at %.3f ms although the previous wait expired at %.3f ms at the latest", i + 1, (double) sent[si].t_ns / 1e6, (double) hi / 1e6), idx);
       if (sent[si].t_ns + 1000000 < lo)
         viol(prop, "stop-signal-too-early", fmt("actions=%s/step=%d", triple.c_str(), i + 1),
              fmt("step %d sent its signal at %.3f ms, the previous wait only expires at %.3f ms", i + 1, (double) sent[si].t_ns / 1e6, (double) lo / 1e6), idx);
